@@ -110,3 +110,9 @@ ENTRIES += [
          what="OpenRPC with the default extractor raised KeyError: 'properties'",
          witness={'kind': 'openrpc', 'extractors': ['base'], 'methods': [_M16], 'endpoints': 1, 'generations': 1, 'spec_opts': _O16, 'path': '/api'}),
 ]
+ENTRIES += [
+    dict(id='F26', property='C13', status='fixed', commit='77d99df', bucket='C13/history/probe-response-depends-on-history',
+         what="PydanticValidator.build_validation_schema was memoised by inspect.Signature, and signatures whose defaults compare equal (1 == True == 1.0) "
+              "are equal: with coercion on, def b(x=True) answered 1 once def a(x=1) had been served through the same validator",
+         witness={'kind': 'vhistory', 'dispatcher': 'sync', 'coerce': True, 'history': [['pick.int', []]], 'probe': ['pick.bool', []]}),
+]
